@@ -55,6 +55,7 @@ func main() {
 	repo := flag.String("repo", "/repo", "kafka-go source tree")
 	zs := flag.String("zsimrt", "/verif/zsimrt", "zsimrt package source")
 	out := flag.String("out", "", "output directory")
+	plain := flag.Bool("plain", false, "do not rewrite the root package (race flavour: the library runs on its real sync primitives); only map the tree and add zsimrt")
 	flag.Parse()
 	if *out == "" {
 		die("-out required")
@@ -98,6 +99,17 @@ func main() {
 	conf.Check(modPath, fset, files, info) // errors ignored
 
 	overlay := map[string]string{}
+	if *plain {
+		if filepath.Clean(*repo) != "/repo" {
+			for _, n := range names {
+				overlay[filepath.Join("/repo", n)] = filepath.Join(*repo, n)
+			}
+			for _, n := range rep.CopiedUnchanged {
+				overlay[filepath.Join("/repo", n)] = filepath.Join(*repo, n)
+			}
+		}
+		files = nil
+	}
 	for i, f := range files {
 		r := &rewriter{fset: fset, info: info, file: f, name: names[i]}
 		r.run()
@@ -121,6 +133,9 @@ func main() {
 	// a tree other than /repo (scratch copy with a patch applied): its
 	// sub-packages replace /repo's through the overlay as well
 	if filepath.Clean(*repo) != "/repo" {
+		for _, n := range rep.CopiedUnchanged {
+			overlay[filepath.Join("/repo", n)] = filepath.Join(*repo, n)
+		}
 		filepath.Walk(*repo, func(path string, fi os.FileInfo, err error) error {
 			if err != nil {
 				return nil
